@@ -329,8 +329,15 @@ func (s *Store) Instantiate(
 		return nil, err
 	}
 
+	// Attach the close notifier before the module becomes visible in the store, so that a
+	// concurrent Store.CloseWithExitCode that closes it right after registration notifies.
+	if closeNotifier, ok := ctx.Value(expctxkeys.CloseNotifierKey{}).(experimental.CloseNotifier); ok {
+		m.CloseNotifier = closeNotifier
+	}
+
 	// Now that the instantiation is complete without error, add it.
 	if err = s.registerModule(m); err != nil {
+		m.CloseNotifier = nil // never handed out, so nothing to notify about.
 		_ = m.Close(ctx)
 		return nil, err
 	}
